@@ -1,4 +1,366 @@
-import PieModel.Build.Pie
+/-
+C15 — identity of type-erased tasks/resources: two keys are the same exactly when they have the
+same concrete type and compare equal; keys of different types never share a node of the store
+even if their fields coincide.
+-/
+import PieModel.Lib.Identity
+import PieModel.Graph.AList
+import PieModel.Build.Store
+
 namespace PieModel
-theorem C15_placeholder : True := trivial
+
+open Identity
+
+/-! ### `eq_any` and the encoding of keys as names -/
+
+theorem C15_eqAny_iff (a b : Key) : eqAny a b = true ↔ a = b := by
+  cases a; cases b
+  simp only [eqAny, Key.mk.injEq]
+  split <;> simp_all
+
+theorem C15_eqAny_iff_fields (a b : Key) : eqAny a b = true ↔ a.ty = b.ty ∧ a.val = b.val := by
+  rw [C15_eqAny_iff]
+  cases a; cases b; simp
+
+/-- Values of different concrete types are never equal, whatever their fields. -/
+theorem C15_different_types_never_equal (a b : Key) (h : a.ty ≠ b.ty) : eqAny a b = false := by
+  simp [eqAny, h]
+
+theorem C15_eqAny_refl (a : Key) : eqAny a a = true := (C15_eqAny_iff a a).mpr rfl
+
+theorem C15_eqAny_symm (a b : Key) : eqAny a b = eqAny b a := by
+  rw [Bool.eq_iff_iff, C15_eqAny_iff, C15_eqAny_iff]; exact eq_comm
+
+theorem C15_eqAny_trans (a b c : Key) (h1 : eqAny a b = true) (h2 : eqAny b c = true) :
+    eqAny a c = true := by
+  rw [C15_eqAny_iff] at *; exact h1.trans h2
+
+/-- The names used by the build model are an injective image of the keys (for the 8 type tags
+the harness uses). -/
+theorem C15_encode_injective (a b : Key) (ha : a.ty < 8) (hb : b.ty < 8)
+    (h : encode a = encode b) : a = b := by
+  cases a; cases b
+  simp only [encode, Key.mk.injEq] at *
+  omega
+
+theorem C15_encode_eq_iff_eqAny (a b : Key) (ha : a.ty < 8) (hb : b.ty < 8) :
+    encode a = encode b ↔ eqAny a b = true := by
+  rw [C15_eqAny_iff]
+  exact ⟨C15_encode_injective a b ha hb, fun h => h ▸ rfl⟩
+
+/-- Same fields, different type ⇒ different names. -/
+theorem C15_encode_different_types (a b : Key) (ha : a.ty < 8) (hb : b.ty < 8) (h : a.ty ≠ b.ty) :
+    encode a ≠ encode b := by
+  intro he; exact h (congrArg Key.ty (C15_encode_injective a b ha hb he))
+
+/-! ### the store keys nodes by name -/
+
+namespace Store
+
+/-- Well-formedness of the two lookup tables of the store: names are duplicate-free in each table,
+no graph node is shared by two table entries (of either table), and every node id in the tables
+was issued by the graph (`< g.next`; ids are never reused). -/
+structure TablesWF (st : Store) : Prop where
+  taskKeys : (akeys st.taskNode).Nodup
+  resKeys : (akeys st.resNode).Nodup
+  idsNodup : ((st.taskNode ++ st.resNode).map (·.2)).Nodup
+  idsLt : ∀ p ∈ st.taskNode ++ st.resNode, p.2 < st.g.next
+
+theorem TablesWF.empty : TablesWF ({} : Store) :=
+  ⟨by simp, by simp, by simp, by simp⟩
+
+theorem TablesWF.task_inj {st : Store} (h : st.TablesWF) {t t' n : Nat}
+    (h1 : aget st.taskNode t = some n) (h2 : aget st.taskNode t' = some n) : t = t' := by
+  have m1 : (t, n) ∈ st.taskNode ++ st.resNode := List.mem_append_left _ (aget_mem h1)
+  have m2 : (t', n) ∈ st.taskNode ++ st.resNode := List.mem_append_left _ (aget_mem h2)
+  have := nodup_map_inj h.idsNodup m1 m2 rfl
+  exact congrArg Prod.fst this
+
+theorem TablesWF.res_inj {st : Store} (h : st.TablesWF) {r r' n : Nat}
+    (h1 : aget st.resNode r = some n) (h2 : aget st.resNode r' = some n) : r = r' := by
+  have m1 : (r, n) ∈ st.taskNode ++ st.resNode := List.mem_append_right _ (aget_mem h1)
+  have m2 : (r', n) ∈ st.taskNode ++ st.resNode := List.mem_append_right _ (aget_mem h2)
+  have := nodup_map_inj h.idsNodup m1 m2 rfl
+  exact congrArg Prod.fst this
+
+theorem TablesWF.task_res_ne {st : Store} (h : st.TablesWF) {t r n n' : Nat}
+    (h1 : aget st.taskNode t = some n) (h2 : aget st.resNode r = some n') : n ≠ n' := by
+  have hn := h.idsNodup
+  rw [List.map_append, List.nodup_append] at hn
+  exact hn.2.2 n (List.mem_map.mpr ⟨_, aget_mem h1, rfl⟩) n' (List.mem_map.mpr ⟨_, aget_mem h2, rfl⟩)
+
+theorem TablesWF.task_lt {st : Store} (h : st.TablesWF) {t n : Nat}
+    (h1 : aget st.taskNode t = some n) : n < st.g.next :=
+  h.idsLt _ (List.mem_append_left _ (aget_mem h1))
+
+theorem TablesWF.res_lt {st : Store} (h : st.TablesWF) {r n : Nat}
+    (h1 : aget st.resNode r = some n) : n < st.g.next :=
+  h.idsLt _ (List.mem_append_right _ (aget_mem h1))
+
+private theorem fresh_not_mem {l : List (Nat × Nat)} {b : Nat} (h : ∀ p ∈ l, p.2 < b) :
+    b ∉ l.map (·.2) := by
+  intro hm
+  obtain ⟨p, hp, he⟩ := List.mem_map.mp hm
+  have := h p hp
+  omega
+
+/-- Adding a fresh name with a fresh graph node to the task table. -/
+private theorem wf_addTask {st : Store} (h : st.TablesWF) {t : Nat} (ht : aget st.taskNode t = none)
+    (d : NodeData) :
+    TablesWF { st with g := (st.g.addNode d).1, taskNode := st.taskNode ++ [(t, st.g.next)] } := by
+  have hfresh := fresh_not_mem h.idsLt
+  rw [List.map_append, List.mem_append] at hfresh
+  refine ⟨?_, h.resKeys, ?_, ?_⟩
+  · show (akeys (st.taskNode ++ [(t, st.g.next)])).Nodup
+    rw [akeys_append, List.nodup_append]
+    refine ⟨h.taskKeys, by simp, ?_⟩
+    intro a ha b hb
+    simp at hb; subst hb
+    rintro rfl
+    exact (aget_eq_none_iff _ _).mp ht ha
+  · show (((st.taskNode ++ [(t, st.g.next)]) ++ st.resNode).map (·.2)).Nodup
+    have hn := h.idsNodup
+    simp only [List.map_append, List.nodup_append, List.map_cons, List.map_nil, List.mem_append,
+      List.mem_cons, List.not_mem_nil, or_false] at hn ⊢
+    refine ⟨⟨hn.1, by simp, ?_⟩, hn.2.1, ?_⟩
+    · intro a ha b hb; subst hb; rintro rfl; exact hfresh (.inl ha)
+    · intro a ha b hb
+      rcases ha with ha | rfl
+      · exact hn.2.2 a ha b hb
+      · rintro rfl; exact hfresh (.inr hb)
+  · intro p hp
+    show p.2 < st.g.next + 1
+    simp only [List.mem_append, List.mem_cons, List.not_mem_nil, or_false] at hp
+    rcases hp with (hp | rfl) | hp
+    · exact Nat.lt_succ_of_lt (h.idsLt p (List.mem_append_left _ hp))
+    · exact Nat.lt_succ_self _
+    · exact Nat.lt_succ_of_lt (h.idsLt p (List.mem_append_right _ hp))
+
+private theorem wf_addRes {st : Store} (h : st.TablesWF) {r : Nat} (hr : aget st.resNode r = none)
+    (d : NodeData) :
+    TablesWF { st with g := (st.g.addNode d).1, resNode := st.resNode ++ [(r, st.g.next)] } := by
+  have hfresh := fresh_not_mem h.idsLt
+  rw [List.map_append, List.mem_append] at hfresh
+  refine ⟨h.taskKeys, ?_, ?_, ?_⟩
+  · show (akeys (st.resNode ++ [(r, st.g.next)])).Nodup
+    rw [akeys_append, List.nodup_append]
+    refine ⟨h.resKeys, by simp, ?_⟩
+    intro a ha b hb
+    simp at hb; subst hb
+    rintro rfl
+    exact (aget_eq_none_iff _ _).mp hr ha
+  · show ((st.taskNode ++ (st.resNode ++ [(r, st.g.next)])).map (·.2)).Nodup
+    have hn := h.idsNodup
+    simp only [List.map_append, List.nodup_append, List.map_cons, List.map_nil, List.mem_append,
+      List.mem_cons, List.not_mem_nil, or_false] at hn ⊢
+    refine ⟨hn.1, ⟨hn.2.1, by simp, ?_⟩, ?_⟩
+    · intro a ha b hb; subst hb; rintro rfl; exact hfresh (.inr ha)
+    · intro a ha b hb
+      rcases hb with hb | rfl
+      · exact hn.2.2 a ha b hb
+      · rintro rfl; exact hfresh (.inl ha)
+  · intro p hp
+    show p.2 < st.g.next + 1
+    simp only [List.mem_append, List.mem_cons, List.not_mem_nil, or_false] at hp
+    rcases hp with hp | hp | rfl
+    · exact Nat.lt_succ_of_lt (h.idsLt p (List.mem_append_left _ hp))
+    · exact Nat.lt_succ_of_lt (h.idsLt p (List.mem_append_right _ hp))
+    · exact Nat.lt_succ_self _
+
+/-- Everything about `get_or_create_task_node` in one statement. -/
+theorem getOrCreateTaskNode_spec {st : Store} (h : st.TablesWF) (t : Nat) :
+    (st.getOrCreateTaskNode t).1.TablesWF ∧
+    aget (st.getOrCreateTaskNode t).1.taskNode t = some (st.getOrCreateTaskNode t).2 ∧
+    (∀ t' n, aget st.taskNode t' = some n → aget (st.getOrCreateTaskNode t).1.taskNode t' = some n) ∧
+    (st.getOrCreateTaskNode t).1.resNode = st.resNode ∧
+    (aget st.taskNode t = none →
+      (st.getOrCreateTaskNode t).2 = st.g.next ∧
+      (st.getOrCreateTaskNode t).1.g.next = st.g.next + 1 ∧
+      ∀ t', t' ≠ t → aget (st.getOrCreateTaskNode t).1.taskNode t' = aget st.taskNode t') := by
+  unfold getOrCreateTaskNode
+  cases hg : aget st.taskNode t with
+  | some n => exact ⟨h, hg, fun _ _ h => h, rfl, fun h => by cases h⟩
+  | none =>
+    refine ⟨wf_addTask h hg _, ?_, ?_, rfl, fun _ => ⟨rfl, rfl, ?_⟩⟩
+    · show aget (st.taskNode ++ [(t, st.g.next)]) t = some st.g.next
+      simp [aget_append, hg]
+    · intro t' n h'
+      show aget (st.taskNode ++ [(t, st.g.next)]) t' = some n
+      simp [aget_append, h']
+    · intro t' hne
+      show aget (st.taskNode ++ [(t, st.g.next)]) t' = aget st.taskNode t'
+      simp [aget_append, Ne.symm hne]
+
+theorem getOrCreateResNode_spec {st : Store} (h : st.TablesWF) (r : Nat) :
+    (st.getOrCreateResNode r).1.TablesWF ∧
+    aget (st.getOrCreateResNode r).1.resNode r = some (st.getOrCreateResNode r).2 ∧
+    (∀ r' n, aget st.resNode r' = some n → aget (st.getOrCreateResNode r).1.resNode r' = some n) ∧
+    (st.getOrCreateResNode r).1.taskNode = st.taskNode ∧
+    (aget st.resNode r = none →
+      (st.getOrCreateResNode r).2 = st.g.next ∧
+      (st.getOrCreateResNode r).1.g.next = st.g.next + 1 ∧
+      ∀ r', r' ≠ r → aget (st.getOrCreateResNode r).1.resNode r' = aget st.resNode r') := by
+  unfold getOrCreateResNode
+  cases hg : aget st.resNode r with
+  | some n => exact ⟨h, hg, fun _ _ h => h, rfl, fun h => by cases h⟩
+  | none =>
+    refine ⟨wf_addRes h hg _, ?_, ?_, rfl, fun _ => ⟨rfl, rfl, ?_⟩⟩
+    · show aget (st.resNode ++ [(r, st.g.next)]) r = some st.g.next
+      simp [aget_append, hg]
+    · intro r' n h'
+      show aget (st.resNode ++ [(r, st.g.next)]) r' = some n
+      simp [aget_append, h']
+    · intro r' hne
+      show aget (st.resNode ++ [(r, st.g.next)]) r' = aget st.resNode r'
+      simp [aget_append, Ne.symm hne]
+
+end Store
+
+open Store
+
+theorem C15_tablesWF_empty : Store.TablesWF ({} : Store) := TablesWF.empty
+
+theorem C15_tablesWF_getOrCreateTaskNode {st : Store} (h : st.TablesWF) (t : Nat) :
+    (st.getOrCreateTaskNode t).1.TablesWF := (getOrCreateTaskNode_spec h t).1
+
+theorem C15_tablesWF_getOrCreateResNode {st : Store} (h : st.TablesWF) (r : Nat) :
+    (st.getOrCreateResNode r).1.TablesWF := (getOrCreateResNode_spec h r).1
+
+/-- Asking twice for the same name gives the same node, and does not change the store again. -/
+theorem C15_getOrCreateTaskNode_idem {st : Store} (h : st.TablesWF) (t : Nat) :
+    (st.getOrCreateTaskNode t).1.getOrCreateTaskNode t = st.getOrCreateTaskNode t := by
+  have hs := (getOrCreateTaskNode_spec h t).2.1
+  generalize st.getOrCreateTaskNode t = r at hs
+  obtain ⟨s1, n⟩ := r
+  simp only [getOrCreateTaskNode] at hs ⊢
+  simp only [hs]
+
+theorem C15_getOrCreateResNode_idem {st : Store} (h : st.TablesWF) (r : Nat) :
+    (st.getOrCreateResNode r).1.getOrCreateResNode r = st.getOrCreateResNode r := by
+  have hs := (getOrCreateResNode_spec h r).2.1
+  generalize st.getOrCreateResNode r = q at hs
+  obtain ⟨s1, n⟩ := q
+  simp only [getOrCreateResNode] at hs ⊢
+  simp only [hs]
+
+/-- Two task names share a node iff they are the same name. -/
+theorem C15_node_shared_iff {st : Store} (h : st.TablesWF) (t t' : Nat) :
+    (st.getOrCreateTaskNode t).2 = ((st.getOrCreateTaskNode t).1.getOrCreateTaskNode t').2 ↔
+      t = t' := by
+  constructor
+  · intro he
+    obtain ⟨hwf1, hl1, -, -, -⟩ := getOrCreateTaskNode_spec h t
+    obtain ⟨-, hl2, hmono, -, hnew⟩ := getOrCreateTaskNode_spec hwf1 t'
+    cases hg : aget (st.getOrCreateTaskNode t).1.taskNode t' with
+    | some n' =>
+      have := hmono t' n' hg
+      rw [hl2] at this
+      have h2 : aget (st.getOrCreateTaskNode t).1.taskNode t' =
+          some (st.getOrCreateTaskNode t).2 := by rw [hg, he, this]
+      exact hwf1.task_inj hl1 h2
+    | none =>
+      have := (hnew hg).1
+      have hlt := hwf1.task_lt hl1
+      omega
+  · rintro rfl
+    rw [C15_getOrCreateTaskNode_idem h]
+
+theorem C15_res_node_shared_iff {st : Store} (h : st.TablesWF) (r r' : Nat) :
+    (st.getOrCreateResNode r).2 = ((st.getOrCreateResNode r).1.getOrCreateResNode r').2 ↔
+      r = r' := by
+  constructor
+  · intro he
+    obtain ⟨hwf1, hl1, -, -, -⟩ := getOrCreateResNode_spec h r
+    obtain ⟨-, hl2, hmono, -, hnew⟩ := getOrCreateResNode_spec hwf1 r'
+    cases hg : aget (st.getOrCreateResNode r).1.resNode r' with
+    | some n' =>
+      have := hmono r' n' hg
+      rw [hl2] at this
+      have h2 : aget (st.getOrCreateResNode r).1.resNode r' =
+          some (st.getOrCreateResNode r).2 := by rw [hg, he, this]
+      exact hwf1.res_inj hl1 h2
+    | none =>
+      have := (hnew hg).1
+      have hlt := hwf1.res_lt hl1
+      omega
+  · rintro rfl
+    rw [C15_getOrCreateResNode_idem h]
+
+/-- A task and a resource never share a node, even if their names coincide. -/
+theorem C15_task_res_node_disjoint {st : Store} (h : st.TablesWF) (t r : Nat) :
+    (st.getOrCreateTaskNode t).2 ≠ ((st.getOrCreateTaskNode t).1.getOrCreateResNode r).2 := by
+  obtain ⟨hwf1, hl1, -, -, -⟩ := getOrCreateTaskNode_spec h t
+  obtain ⟨hwf2, hl2, -, htn, -⟩ := getOrCreateResNode_spec hwf1 r
+  rw [← htn] at hl1
+  exact hwf2.task_res_ne hl1 hl2
+
+theorem C15_res_task_node_disjoint {st : Store} (h : st.TablesWF) (t r : Nat) :
+    (st.getOrCreateResNode r).2 ≠ ((st.getOrCreateResNode r).1.getOrCreateTaskNode t).2 := by
+  obtain ⟨hwf1, hl1, -, -, -⟩ := getOrCreateResNode_spec h r
+  obtain ⟨hwf2, hl2, -, hrn, -⟩ := getOrCreateTaskNode_spec hwf1 t
+  rw [← hrn] at hl1
+  exact (hwf2.task_res_ne hl2 hl1).symm
+
+/-- The node of a name never changes once it was created (whatever other names are looked up or
+created later). -/
+theorem C15_node_stable_task {st : Store} (h : st.TablesWF) {t n : Nat}
+    (hn : aget st.taskNode t = some n) (t' r' : Nat) :
+    aget (st.getOrCreateTaskNode t').1.taskNode t = some n ∧
+    aget (st.getOrCreateResNode r').1.taskNode t = some n :=
+  ⟨(getOrCreateTaskNode_spec h t').2.2.1 t n hn, by rw [(getOrCreateResNode_spec h r').2.2.2.1]; exact hn⟩
+
+theorem C15_node_stable_res {st : Store} (h : st.TablesWF) {r n : Nat}
+    (hn : aget st.resNode r = some n) (t' r' : Nat) :
+    aget (st.getOrCreateResNode r').1.resNode r = some n ∧
+    aget (st.getOrCreateTaskNode t').1.resNode r = some n :=
+  ⟨(getOrCreateResNode_spec h r').2.2.1 r n hn, by rw [(getOrCreateTaskNode_spec h t').2.2.2.1]; exact hn⟩
+
+/-- End to end: two type-erased task keys (type tag `< 8`) get the same store node iff `eq_any`
+says they are the same; in particular keys of different types never share a node. -/
+theorem C15_key_node_shared_iff {st : Store} (h : st.TablesWF) (a b : Key)
+    (ha : a.ty < 8) (hb : b.ty < 8) :
+    (st.getOrCreateTaskNode (encode a)).2 =
+        ((st.getOrCreateTaskNode (encode a)).1.getOrCreateTaskNode (encode b)).2 ↔
+      eqAny a b = true := by
+  rw [C15_node_shared_iff h, C15_encode_eq_iff_eqAny a b ha hb]
+
+theorem C15_key_res_node_shared_iff {st : Store} (h : st.TablesWF) (a b : Key)
+    (ha : a.ty < 8) (hb : b.ty < 8) :
+    (st.getOrCreateResNode (encode a)).2 =
+        ((st.getOrCreateResNode (encode a)).1.getOrCreateResNode (encode b)).2 ↔
+      eqAny a b = true := by
+  rw [C15_res_node_shared_iff h, C15_encode_eq_iff_eqAny a b ha hb]
+
+theorem C15_different_types_never_share_node {st : Store} (h : st.TablesWF) (a b : Key)
+    (ha : a.ty < 8) (hb : b.ty < 8) (hty : a.ty ≠ b.ty) :
+    (st.getOrCreateTaskNode (encode a)).2 ≠
+        ((st.getOrCreateTaskNode (encode a)).1.getOrCreateTaskNode (encode b)).2 ∧
+    (st.getOrCreateResNode (encode a)).2 ≠
+        ((st.getOrCreateResNode (encode a)).1.getOrCreateResNode (encode b)).2 := by
+  have hne := C15_different_types_never_equal a b hty
+  constructor
+  · intro he; rw [C15_key_node_shared_iff h a b ha hb] at he; simp [hne] at he
+  · intro he; rw [C15_key_res_node_shared_iff h a b ha hb] at he; simp [hne] at he
+
+/-! ### non-vacuity -/
+
+/-- same fields, different type: not equal, different names -/
+example : eqAny ⟨1, 42⟩ ⟨2, 42⟩ = false ∧ encode ⟨1, 42⟩ ≠ encode ⟨2, 42⟩ := by decide
+example : eqAny ⟨3, 42⟩ ⟨3, 42⟩ = true := by decide
+/-- the bound on the type tag in `C15_encode_injective` is needed -/
+example : encode ⟨8, 0⟩ = encode ⟨0, 0⟩ ∧ (⟨8, 0⟩ : Key) ≠ ⟨0, 0⟩ := by decide
+
+/-- A concrete store: tasks 5, 6 and resource 5 get nodes 0, 1, 2; asking again for task 5 gives 0. -/
+example :
+    let s0 : Store := {}
+    let (s1, a) := s0.getOrCreateTaskNode 5
+    let (s2, b) := s1.getOrCreateTaskNode 6
+    let (s3, c) := s2.getOrCreateResNode 5
+    let (_, d) := s3.getOrCreateTaskNode 5
+    (a, b, c, d) = (0, 1, 2, 0) := by decide
+
+/-- `TablesWF` is not vacuous and not trivial: a table sharing a node between two names violates it. -/
+example : ¬ Store.TablesWF { g := { next := 1 }, taskNode := [(1, 0), (2, 0)] } := by
+  intro h; have := h.idsNodup; simp at this
+
 end PieModel
